@@ -2,6 +2,7 @@
 Model: lean/RedunModel/Model/TaskHash.lean; theorems: lean/RedunModel/Props/C17.lean."""
 import inspect
 import linecache
+import random
 
 from props._preimage import HashLog, hx
 
@@ -55,7 +56,8 @@ RULE = ("task definitions generated as real source text (def / async def, space-
         "several decorator lines, definition-time options, version, source=, compat, hash_includes, .options overrides), "
         "registered in linecache and executed so that inspect.getsource works; each task's real hash pre-image (hash_struct "
         "wrapped) is compared with the model's, get_func_source's output with the model's; partial and wraps_task tasks "
-        "likewise; then single-dimension mutations are applied and the real hashes compared with what the statement demands. "
+        "likewise (including ONE wraps_task decorator object applied to several tasks, and several wraps_task() calls relying on the "
+        "default include list: a task's hash must not depend on siblings and must equal its _calc_hash()); then single-dimension mutations are applied and the real hashes compared with what the statement demands. "
         "distinct = distinct (definition, mutation) pairs; nothing is trivial")
 LEVEL_TEXT = ("Proved on the model (repaired get_func_source) for all task definitions with empty compat: equal hashes force equal "
               "full name, code identity (source, or version) and includes++options tail (calcHash_inj), hence a change of "
@@ -232,6 +234,7 @@ def run(ctx):
     from redun.utils import get_func_source
     from redun.value import get_type_registry
     rng = ctx.rng
+    wseed = rng.getrandbits(32)          # sub-stream for the shared-wrapper scenarios (so a replay can re-create them)
     reg = get_type_registry()
     log = HashLog()
     labels = Labels(log, reg)
@@ -269,6 +272,7 @@ def run(ctx):
             plan.append((d, t.hash, real_src, muts))
         impl_pre = [log.render(h) for _, h, _, _ in plan]
         extra = derived(ctx, rng, log, reg, labels)
+        extra += shared_wrappers(ctx, random.Random(wseed), log, reg, labels)
     out = ctx.model("C17", reqs + [r for r, _, _ in extra])
 
     old_tree = 0
@@ -404,9 +408,104 @@ def derived(ctx, rng, log, reg, labels):
     return out
 
 
+def make_default_wrapper():
+    """a separate wraps_task() call that relies on the default `wrapper_hash_includes`"""
+    from redun.task import wraps_task
+
+    @wraps_task(wrapper_name="_wd")
+    def _wd(inner_task):
+        def do_default(*a, **k):
+            return inner_task.func(*a, **k)
+
+        return do_default
+
+    return _wd
+
+
+def wrapped_request(wrapped, winc, inner_hash, inner_sx, labels):
+    """model request for the visible task `wrapped` = wrapper(winc)(inner)"""
+    wl = inspect.getsource(wrapped.func).split("\n")
+    items = [(labels.of_value(v)[0], "v%d" % labels.of_value(v)[1]) for v in winc]
+    digs = [dg for dg, _ in items] + [inner_hash]
+    order = sorted(set(digs))
+    return "hash (W %s %s N i%d %s)" % (sx_lines(wl), sx_incl(items, digs), order.index(inner_hash), inner_sx)
+
+
+def shared_wrappers(ctx, rng, log, reg, labels):
+    """ONE wraps_task decorator object applied to several tasks (and several wraps_task() calls relying on the default
+    include list): a task's hash must not depend on unrelated siblings decorated before or after it, and must stay equal
+    to its own _calc_hash()."""
+    out = []
+    for i in range(ctx.n(10, 120)):
+        for mode in ("shared-decorator", "default-includes"):
+            winc = rng.choice([[], [7], [8, "w"]]) if mode == "shared-decorator" else []
+            tag = "%s%d" % ("s" if mode == "shared-decorator" else "d", i)
+            dT = gen_def(rng, 20000 + i)
+            dT.update(compat=[], kind="def", name="t_" + tag, override={}, version=None, given=None)
+            dS = gen_def(rng, 30000 + i)
+            dS.update(compat=[], kind="def", name="sib_" + tag, override={}, version=None, given=None, ns=dT["ns"])
+            dS2 = dict(dS, body=dS["body"] + "\n{I}x = 0")
+
+            def world(defs):
+                """wrap the tasks of `defs` in order -> the wrapped tasks (+ inner hashes)"""
+                W = make_wrapper("_ws", winc) if mode == "shared-decorator" else None
+                res = []
+                for d in defs:
+                    inner = build(d, log, reg)
+                    ih = inner.hash
+                    wr = (W if W is not None else make_default_wrapper())(inner)
+                    res.append((wr, ih, inner, d))
+                return res
+
+            info = {"scenario": mode, "task": def_src(dT), "sibling": def_src(dS), "wrapper_hash_includes": winc}
+            ctx.case(key=("shared", mode, i), part="wraps_task-" + mode, wrapper_includes=len(winc))
+            h_alone = world([dT])[0][0].hash
+            w_after = world([dS, dT])
+            h_after = w_after[1][0].hash
+            h_after_edit = world([dS2, dT])[1][0].hash
+            # correspondence: the second task wrapped by the same decorator
+            inner_sx, _ = taskdef_sx(dT, w_after[1][2], labels)
+            out.append((wrapped_request(w_after[1][0], winc, w_after[1][1], inner_sx, labels), log.render(h_after),
+                        dict(info, what="second task wrapped by one decorator object (%s)" % mode)))
+            if h_after != h_alone:
+                ctx.violation("C17-wrapped-hash-depends-on-sibling-present-" + mode,
+                              "the hash of a wrapped task depends on whether an unrelated task was wrapped before it",
+                              case=dict(info, compare="[task] vs [sibling, task]"), expected="equal task hashes", actual="different")
+            if h_after_edit != h_after:
+                ctx.violation("C17-wrapped-hash-depends-on-sibling-edited-" + mode,
+                              "the hash of a wrapped task changes when the body of an unrelated, earlier wrapped task changes",
+                              case=dict(info, compare="[sibling, task] vs [sibling', task]", sibling_edited=def_src(dS2)),
+                              expected="equal task hashes", actual="different")
+            # the task first, then the sibling: the earlier task must stay consistent
+            W = make_wrapper("_ws", winc) if mode == "shared-decorator" else None
+            innerT = build(dT, log, reg)
+            T = (W if W is not None else make_default_wrapper())(innerT)
+            h0, h0_opt, h0_calc = T.hash, T.options(memory=5).hash, T._calc_hash()
+            (W if W is not None else make_default_wrapper())(build(dS, log, reg))
+            if h0_calc != h0 or T._calc_hash() != T.hash:
+                ctx.violation("C17-wrapped-hash-stale-after-sibling-" + mode,
+                              "after an unrelated sibling is wrapped, task.hash != task._calc_hash() for the earlier wrapped task",
+                              case=dict(info, compare="task.hash vs task._calc_hash() after the sibling's definition"),
+                              expected=T.hash, actual=T._calc_hash())
+            if T.options(memory=5).hash != h0_opt:
+                ctx.violation("C17-wrapped-options-hash-changes-after-sibling-" + mode,
+                              "task.options(memory=5).hash differs before and after an unrelated sibling is wrapped",
+                              case=dict(info, compare="task.options(memory=5).hash before vs after the sibling's definition"),
+                              expected=h0_opt, actual=T.options(memory=5).hash)
+    return out
+
+
 def replay(ctx, case):
     """re-run exactly the recorded pair of definitions on the implementation"""
     c = case.get("case")
+    if isinstance(c, dict) and "scenario" in c:
+        from redun.value import get_type_registry
+        print("replay: shared-wrapper scenarios (%s); recorded task:\n%s\nsibling:\n%s" % (c["scenario"], c.get("task"), c.get("sibling")))
+        wseed = ctx.rng.getrandbits(32)
+        log = HashLog()
+        with log:
+            shared_wrappers(ctx, random.Random(wseed), log, get_type_registry(), Labels(log, get_type_registry()))
+        return
     if not isinstance(c, dict) or "before" not in c:
         print("replay: no single input recorded (correspondence/proof break, or a derived-task case); running the whole check")
         return run(ctx)
